@@ -74,6 +74,9 @@ class one_space_line:
                 res = "BLANK"
             elif self.parts[0] == "#":
                 res = "CPP_DIRECTIVE"
+        elif self.parts[:3] == [" ", "#", "#"] or self.parts[:2] == ["#", "#"]:
+            # "##" is a single token; it does not introduce a directive.
+            res = "SRC_NONBLANK"
         elif self.parts[:2] == [" ", "#"] or self.parts[0] == "#":
             res = "CPP_DIRECTIVE"
         return res
